@@ -393,6 +393,14 @@ def lean_summary():
             st = leanback._STATIC["edw"]
             out["Edwards (header + generated mirror of the real functions + EdwardsProofs + EdwardsExtra)"] = {
                 "ok": st["ok"], "seconds": st.get("seconds"), "cached": st.get("cached"), "sha256_of_checked_text": (st.get("sha") or "")[:16], "theorems": len(st.get("theorems", []))}
+        for part in ("abstract", "curve"):
+            st = leanback._STATIC.get("bridge_" + part)
+            if st is not None:
+                out["Bridge (%s): z3 lemma schemas printed as Lean statements + BridgeProofs%s.lean + Primes (generated from the Pratt certificates)" % (part, part.capitalize())] = {
+                    "ok": st["ok"], "seconds": st.get("seconds"), "cached": st.get("cached"), "sha256_of_checked_text": (st.get("sha") or "")[:16], "schemas_proved": sorted(st.get("names", []))}
+        st = leanback._STATIC.get("primes")
+        if st is not None:
+            out["Primes (Lucas test on certs/pratt_*.json, generated by pyvc/leanprimes.py)"] = {"ok": st["ok"], "seconds": st.get("seconds"), "cached": st.get("cached"), "sha256_of_checked_text": (st.get("sha") or "")[:16]}
     except Exception as e:
         out["error"] = str(e)
     return out
